@@ -19,7 +19,7 @@ META = {
                  "framed templates noise(<=2) | frame(payload 2..4 or 19 bytes, payload+CRC symbolic) | tail(<=3), <=1 fault; message numbers per frame: "
                  "representatives (4072 unknown, 1005, 1070 reserved) by assumption or <=3 solver-chosen values",
         "thorough": "lengths 0..10, <=2 faults at lengths <=7, two-frame templates, payloads up to 19 bytes"},
-    "outside": "streams longer than the bound that are not template instances; more faults than the bound; CRC-24Q correctness of the recorded "
+    "outside": "socket templates: <=2 receive cuts and one injected timeout/OS error; streams longer than the bound that are not template instances; more faults than the bound; CRC-24Q correctness of the recorded "
                "CRC result term (C08, assume-guarantee)",
     "assumptions": ["CRC clause: a recorded calc_crc24q call on exactly the returned bytes whose result the path condition forces to 0; "
                     "that this result is CRC-24Q is C08; each path's concrete witness is re-validated with an independent CRC"],
@@ -47,6 +47,7 @@ def jobs(tier, seed):
     for i, (noise, pl, tail) in enumerate(tm):
         out.append(('tmpl', noise, pl, tail, (i + seed) % 3, 1 if noise + tail <= 2 else 0, 4072))
     out.append(('twin', 6, 1))
+    out += [('sock', 1, 2, 0, 1), ('sock', 0, 3, 1, 2)] + ([('sock', 1, 3, 1, 0), ('sock', 2, 2, 1, 1)] if tier != 'quick' else [])
     out.append(('twin', 19, 2))
     out.append(('big', 1030, 1))
     out.append(('big', 1029, 2))
@@ -112,6 +113,44 @@ def run_job(spec):
             H['data'] = data
             st = shims.SymStream(data, faults=faults)
             return rdrdrv.iterate(st, mode=mode, max_calls=3 * n + 8)
+    elif kind == 'sock':
+        # the same obligations over a socket: receive boundaries anywhere (<=2 cuts) and one TimeoutError/OSError; the caller keeps calling
+        # read() after an end-of-data indication, so frames delivered after a timeout are checked too
+        _, noise, pl, tail, mode = spec
+        eng = sym.Engine(max_paths=60000, conc_limit=3, conc_small=0)
+        eng.time_budget = 240
+
+        def fn():
+            from pyrtcm.rtcmreader import RTCMReader
+            nz = sym.symbytes("n", noise)
+            pay = sym.symbytes("p0_", pl)
+            crc = sym.symbytes("c0_", 3)
+            eng.assume(msgdrv.fterm(pay.term(), 8 * pl, 0, 12) == 4072)
+            data = SymBytes(list(nz.e) + [0xD3, 0, pl] + pay.e + crc.e + list(sym.symbytes("t", tail).e))
+            H['data'] = data
+            sock = shims.SymSocket(data, maxcuts=1 if len(data) > 9 else 2, faults=1)
+            run = rdrdrv.Run()
+            rec = rdrdrv.CrcRecorder(rdrdrv.CrcSummary())
+            shims.set_crc(rec)
+            run.crc, run.stream = rec, sock
+            sock.fault_seen = []
+            try:
+                rdr = RTCMReader(sock, quitonerror=mode, errorhandler=lambda e: None)
+                for _ in range(len(data) + 6):
+                    try:
+                        raw, msg = rdr.read()
+                    except rdrdrv.lib_errors() as e:
+                        run.events.append(('exc', e))
+                        continue
+                    if raw is not None:
+                        run.events.append(('pair', raw, msg))
+                    elif sock.pos >= len(data) and len(rdr.datastream.buffer) == 0:
+                        break
+                run.end = 'stop'
+                return run
+            finally:
+                shims.set_crc(rec.inner.direct)
+                sock.close()
     elif kind == 'twin':
         # two different intact frames of equal length that share their three CRC bytes (a 2^-24 coincidence the solver simply assumes)
         _, pl, mode = spec
@@ -209,11 +248,15 @@ def run_job(spec):
             if model is None:
                 res['harness_errors'].append(f"{spec}: no model for '{why}'")
                 return
+            if kind == 'sock':
+                res['cex'].append({'kind': 'sockstream', 'data': concretise(model).hex(), 'mode': spec[4], 'recv_log': list(run.stream.log), 'why': why,
+                                   'dedup': f"sock:{why[:50]}"})
+                return
             res['cex'].append({'kind': 'stream', 'data': concretise(model).hex(), 'mode': spec[2] if kind in ('free', 'big', 'twin') else mode,
                                'faults': {str(c): k for c, k in run.stream.fault_seen}, 'checks': ['c01'], 'why': why,
                                'dedup': f"{why[:50]}:{len(data)}"})
         check_pairs(eng, run, data, res, mkcase)
-        if run.pairs() and wit < 4 and eng.check3() == 'sat':
+        if run.pairs() and wit < 4 and kind != 'sock' and eng.check3() == 'sat':
             wit += 1
             res['witnesses'].append({'kind': 'stream', 'data': concretise(eng.solver.model()).hex(),
                                      'mode': spec[2] if kind in ('free', 'big', 'twin') else mode,
